@@ -92,9 +92,26 @@ def run_task(args):
     }
     last_nt = [None]
     best = [None]
+    res["excluded"] = collections.Counter()
+    known_preds = getattr(mod, "KNOWN", {})
+    known_slugs = [k["slug"] for k in load_known(prop_id) if k["slug"] in known_preds]
+
+    def known_slug(case, fail):
+        for slug in known_slugs:
+            if known_preds[slug](sub_name, case, fail):
+                return slug
+        return None
 
     def body(case):
         fail, ctx = run_case(sub, case, tier, scratch)
+        if fail is not None and known_slug(case, fail):
+            # a listed known finding: excluded by construction, counted, never hides another failure
+            if target is None:
+                res["excluded"][known_slug(case, fail)] += 1
+            fail = None
+            excluded_case = True
+        else:
+            excluded_case = False
         if target is not None:
             if fail is not None and fail.bucket == target:
                 txt = codec.dumps(case)
@@ -107,6 +124,8 @@ def run_task(args):
                 raise _Found(case)
             return
         res["evals"] += 1
+        if excluded_case:
+            res["labels"]["excluded-known"] += 1
         for lb in ctx.labels:
             res["labels"][lb] += 1
         if ctx.is_nontrivial:
@@ -344,6 +363,7 @@ def main(argv=None):
         per = max(1, total // nsh)
         for i in range(nsh):
             tasks.append((prop_id, s.name, a.tier, seed, i, nsh, per, None, None))
+    excluded_known = collections.Counter()
     merged = {}
     for s in subs:
         merged[s.name] = {"evals": 0, "nontrivial": set(), "labels": collections.Counter(), "buckets": {},
@@ -362,6 +382,7 @@ def main(argv=None):
             m["wall"] = max(m["wall"], r["wall"])
             if len(m["samples"]) < 4:
                 m["samples"].extend(r["samples"][:2] if m["samples"] else r["samples"][:3])
+            excluded_known.update(r.get("excluded", {}))
             if r["error"]:
                 harness_errors.append("%s shard %d: %s" % (r["sub"], r["shard"], r["error"]))
             for b, info in r["buckets"].items():
@@ -373,8 +394,7 @@ def main(argv=None):
                     if len(info["case"]) < len(cur["case"]):
                         cur["case"], cur["detail"], cur["shard"] = info["case"], info["detail"], info["shard"]
 
-    # 4. classify buckets
-    excluded_known = collections.Counter()
+    # 4. report buckets (known findings were excluded, and counted, at collection time)
     per_task = {t[1]: (t[5], t[6]) for t in tasks}
     for s in subs:
         m = merged[s.name]
@@ -382,17 +402,6 @@ def main(argv=None):
             prop_id, s.name, m["evals"], len(m["nontrivial"]), len(m["buckets"]), m["wall"])
         print(line)
         for b, info in sorted(m["buckets"].items()):
-            case = codec.loads(info["case"])
-            f = Fail(b, info["detail"])
-            slug = None
-            for k in known:
-                pred = known_preds.get(k["slug"])
-                if pred and pred(s.name, case, f):
-                    slug = k["slug"]
-                    break
-            if slug:
-                excluded_known[slug] += info["count"]
-                continue
             case_txt = info["case"]
             if s.enumerate is None and not a.no_shrink:
                 nsh, per = per_task[s.name]
